@@ -14,7 +14,7 @@ Open Scope res_scope.
 (* ---------- canonical values: what a Python value / numpy element is, up to list-vs-ndarray ---------- *)
 Inductive sk := SBool | SInt | SFloat | SStr.
 Inductive cval := CScalar (k : sk) (z : Z) | CArr (k : sk) (sh : list nat) (flat : list Z).
-Definition cattrs := list (string * cval).
+Notation cattrs := (list (string * cval)) (only parsing).
 
 Definition sk_eqb (a b : sk) : bool :=
   match a, b with SBool, SBool | SInt, SInt | SFloat, SFloat | SStr, SStr => true | _, _ => false end.
@@ -215,8 +215,8 @@ Definition rx_fill_prop (n : nat) (tbl : list cattrs) (kv : string * prop) : res
       else rx_fill_go name p n 0 tbl
   end.
 
-Fixpoint zip_idx (ids : list Z) (i : Z) : list (Z * Z) :=
-  match ids with [] => [] | x :: r => (x, i) :: zip_idx r (i + 1)%Z end.
+(* rustworkx node indices of a fresh graph: 0 .. n-1 *)
+Definition zseq (n : nat) : list Z := map Z.of_nat (seq 0 n).
 
 Definition rx_construct (g : mgraph) : res rxc :=
   let d := md_directed (g_md g) in
@@ -224,7 +224,7 @@ Definition rx_construct (g : mgraph) : res rxc :=
   let n := length ids in
   let! nodes := foldM (rx_fill_prop n) (g_nprops g) (repeat [] n) in
   (* dict(zip(node_ids, rx_node_ids)) *)
-  let idmap := fold_left (fun acc kv => kset Z.eqb (fst kv) (snd kv) acc) (zip_idx ids 0) [] in
+  let idmap := fold_left (fun acc kv => kset Z.eqb (fst kv) (snd kv) acc) (combine ids (zseq n)) [] in
   let! es := edge_rows (g_eids g) in
   match es with
   | [] => Ok (mkrxc d nodes [] idmap)
@@ -265,7 +265,7 @@ Fixpoint opt_all {A} (l : list (option A)) : option (list A) :=
   end.
 Definition canon_rx (g : rxc) : option cgraph :=
   match opt_all (map (fun ia => match inv_map (rc_map g) (fst ia) with Some id => Some (id, snd ia) | None => None end)
-                     (combine (map snd (zip_idx (map (fun _ => 0%Z) (rc_nodes g)) 0)) (rc_nodes g))),
+                     (combine (zseq (length (rc_nodes g))) (rc_nodes g))),
         opt_all (map (fun ed => match inv_map (rc_map g) (fst (fst ed)), inv_map (rc_map g) (snd (fst ed)) with
                                 | Some u, Some v => Some ((u, v), snd ed)
                                 | _, _ => None
